@@ -198,6 +198,10 @@ func (s *icmpDriver) handleProbeLayers(parser *packets.FrameParser) (*common.Pro
 				IsDest: false,
 			}, nil
 		case layers.ICMPv4TypeEchoReply:
+			// an echo reply only proves arrival when the target itself sent it to us
+			if ipPair.SrcAddr.Compare(s.params.Target) != 0 || ipPair.DstAddr.Compare(s.localAddr) != 0 {
+				return nil, common.ErrPacketDidNotMatchTraceroute
+			}
 			if parser.ICMP4.Id != s.echoID {
 				return nil, &common.BadPacketError{Err: fmt.Errorf("mismatched echo ID")}
 			}
@@ -253,6 +257,10 @@ func (s *icmpDriver) handleProbeLayers(parser *packets.FrameParser) (*common.Pro
 				IsDest: false,
 			}, nil
 		case layers.ICMPv6TypeEchoReply:
+			// an echo reply only proves arrival when the target itself sent it to us
+			if ipPair.SrcAddr.Compare(s.params.Target) != 0 || ipPair.DstAddr.Compare(s.localAddr) != 0 {
+				return nil, common.ErrPacketDidNotMatchTraceroute
+			}
 			payload := parser.ICMP6.Payload
 			if len(payload) < 4 {
 				return nil, errPacketDidNotMatchTraceroute
